@@ -222,7 +222,7 @@ func genCase(t *rapid.T) Case {
 	for i := 3; i < np; i++ {
 		c.Pool = append(c.Pool, *genPoolGeom(t))
 	}
-	nc := rapid.IntRange(30, 150).Draw(t, "ncalls")
+	nc := rapid.IntRange(60, 240).Draw(t, "ncalls")
 	// one mix in eight is a burst: 260-420 calls of two functions only (a counter or a
 	// stamp inside pooled state wraps after 256 uses of the same thing, not of anything)
 	var burst []string
